@@ -40,7 +40,9 @@ def write_gro_text(title, atoms, box):
 
 def write_pdb_text(atoms, box):
     """atoms: list of (resid, resname, atomname, x, y, z) in nm; PDB in Angstrom (3 decimals in nm = 2 in A)"""
-    out = ["CRYST1%9.3f%9.3f%9.3f  90.00  90.00  90.00 P 1           1" % tuple(10 * b for b in box[:3])]
+    out = []
+    if box is not None:          # (a .pdb file need not carry a CRYST1 record)
+        out = ["CRYST1%9.3f%9.3f%9.3f  90.00  90.00  90.00 P 1           1" % tuple(10 * b for b in box[:3])]
     for i, (resid, resname, aname, x, y, z) in enumerate(atoms):
         out.append("ATOM  %5d %-4s %-3s A%4d    %8.3f%8.3f%8.3f  1.00  0.00" %
                    ((i + 1) % 100000, aname[:4], resname[:3], resid % 10000, 10 * x, 10 * y, 10 * z))
@@ -166,7 +168,7 @@ def check_c03(ctx, job, gro, top):
     if box is None or len(box) < 3:
         ctx.fail("C03", "box.requested", f"box line missing: {box}")
         return
-    if job.get("coord_text") is not None:
+    if job.get("coord_text") is not None and job.get("coord_box") is not None:
         exp = job["coord_box"]
         tol = 1e-9 if job.get("coord_ext") == "pdb" else 0.0      # .pdb boxes are in Angstrom: float(A)/10
         if any(abs(float(a) - float(b)) > tol for a, b in zip(box[:3], exp[:3])):
